@@ -326,3 +326,7 @@ Definition compile (defaults : list (string * string)) (preamble : string) (doc 
     | Some r => POk r
     | None => PUnsupported
     end).
+
+(* is the profile declarative (no hand-written Rego) with every constraint about the variable in scope? *)
+Definition declarative (defaults : list (string * string)) (doc : ynode) : presult bool :=
+  pbind (elab_profile defaults doc) (fun p => POk (profile_scoped p && match cp_custom p with None => true | Some _ => false end)).
